@@ -1,4 +1,4 @@
-import LabtechModel.Proofs.IntrDrain
+import LabtechModel.Proofs.IntrWindow
 /-!
 # C14 — one Ctrl-C drains the run gracefully; a second one stops it at once
 
@@ -304,5 +304,261 @@ example :
       = [(0, 0), (1, 6)] ∧
     (interruptedRun { c14Cfg with backend := .serial, bust := true } c14P [(0, 5), (1, 6)] 4 c14Sched 7 [] none).outcome
       = .interrupted := by decide
+
+/-!
+## (A) The drain loop of the first handler ends
+
+`single_interrupt_raises_interrupt` leaves `waiting` as a possible outcome because nothing there says
+that `while runner.pending_task_count() > 0` ends. It does: at EVERY interrupt instant every tracked
+future is cancelled, done, the future of a dead process, in the running map or still queued
+(`tracked_future_covered`; no hypothesis, also inside the F14a window) — there is no instant at which
+a future is tracked but nowhere, which is what made the drain spin for ever before D14 was repaired.
+`cancel()` cancels the queued ones; one drain round pops everything that is cancelled / done / dead;
+what stays tracked is in the running map; a fair round (`FairDrain`: the first running worker
+reports) shrinks the running map. So after at most `len(running map at the interrupt) + 1` fair
+rounds the loop has ended: NO HANG at any instant `k` (`drain_terminates`). Outside the window the
+running map is no longer than `future_to_task` (`drain_terminates_tracked`).
+-/
+
+/-- at every interrupt instant (process runners, no exception propagating) every tracked future is
+    cancelled, or holds an outcome, or belongs to a dead process the dead-process loop will mark,
+    or is in the running map, or is still queued in the executor -/
+theorem tracked_future_covered (k : Nat) (hb : cfg.backend ≠ .serial)
+    (hrun : (stateAt cfg p store fuel sched k).rs.status = .running) :
+    ∀ t ∈ (stateAt cfg p store fuel sched k).rs.futs,
+      t ∈ (stateAt cfg p store fuel sched k).cancelled ∨
+      t ∈ (stateAt cfg p store fuel sched k).done.map (·.1) ∨
+      t ∈ (stateAt cfg p store fuel sched k).zombies ∨
+      t ∈ (stateAt cfg p store fuel sched k).rs.running.map Job.tid ∨
+      t ∈ (stateAt cfg p store fuel sched k).rs.queued.map Job.tid :=
+  fun t ht => stateAt_Cov (cfg := cfg) (p := p) store fuel sched k hb hrun t (Or.inl ht)
+
+/-- Liveness of the drain, at ANY interrupt instant `k`: under a fair drain schedule with more
+    rounds than entries in the running map at the interrupt, the handler is never still waiting. -/
+theorem drain_terminates (k : Nat) (hk : k < (mainOf cfg p store fuel sched).length)
+    (hfair : FairDrain ds)
+    (hlen : (stateAt cfg p store fuel sched k).rs.running.length + 1 ≤ ds.length) :
+    (interruptedRun cfg p store fuel sched k ds none).outcome ≠ .waiting := by
+  rw [interruptedRun_single store fuel sched ds k hk]
+  simp only
+  have hfut := handler_fair (cfg := cfg) (p := p) (reqTids p) ds (stateAt cfg p store fuel sched k) hfair
+    (stateAt_Cov store fuel sched k) hlen
+  have hnoret : NoRet (runPrims cfg p (handlerPrims cfg p (reqTids p) ds (stateAt cfg p store fuel sched k))
+      (stateAt cfg p store fuel sched k)) := by
+    apply runPrims_NoRet
+    apply runPrims_NoRet
+    intro r hr; simp [initIS, initRS] at hr
+  unfold handlerOutcome
+  cases hs : (runPrims cfg p (handlerPrims cfg p (reqTids p) ds (stateAt cfg p store fuel sched k))
+      (stateAt cfg p store fuel sched k)).rs.status with
+  | running => simp [hfut hs]
+  | returned r => exact absurd hs (hnoret r)
+  | raised e => simp
+
+/-- A single interrupt at ANY instant `k`, fair drain: `run_tasks` leaves by `KeyboardInterrupt` —
+    or, only without `continue_on_failure`, by `LabError` for a task that failed during the drain. -/
+theorem single_interrupt_raises_interrupt_fair (k : Nat) (hk : k < (mainOf cfg p store fuel sched).length)
+    (hfair : FairDrain ds)
+    (hlen : (stateAt cfg p store fuel sched k).rs.running.length + 1 ≤ ds.length) :
+    (interruptedRun cfg p store fuel sched k ds none).outcome = .interrupted ∨
+      (cfg.contOnFail = false ∧
+        ∃ t, (interruptedRun cfg p store fuel sched k ds none).outcome = .raised (.labError t)) := by
+  rcases single_interrupt_raises_interrupt cfg p store fuel sched ds k hk with h | h | h
+  · exact Or.inl h
+  · exact absurd h (drain_terminates cfg p store fuel sched ds k hk hfair hlen)
+  · exact Or.inr h
+
+/-!
+## (B) Where `Tr` holds: exactly outside the start-and-track windows
+
+`inWindow pre` (decidable, a fold over the executed prefix `pre` of the main stream):
+`_start_processes` has executed `process.start()` for a future and not yet `del _pending…[future]`
+(`procStart j … unregPending j`, called from `submit` or from `wait`), or `submit_task(t)` is in
+progress and the worker of `t` has been started (`procStart t … regFuture t`).
+-/
+
+/-- `Tr` holds at every interrupt instant outside the window -/
+theorem tr_outside_window (k : Nat)
+    (hw : inWindow ((mainOf cfg p store fuel sched).take k) = false) :
+    Tr cfg (stateAt cfg p store fuel sched k) :=
+  stateAt_Tr_outside store fuel sched k hw
+
+/-- process runners: the window is EXACT — at every interrupt instant, `Tr` holds iff the instant is
+    outside the window (inside: right after `process.start()` the worker is alive and in no map;
+    after its registration as running the future is pending and running at once; after
+    `del _pending…` in the submit path the running entry's future is not in `future_to_task`) -/
+theorem tr_iff_outside_window (hb : cfg.backend ≠ .serial) (k : Nat) :
+    Tr cfg (stateAt cfg p store fuel sched k) ↔
+      inWindow ((mainOf cfg p store fuel sched).take k) = false := by
+  constructor
+  · intro htr
+    cases hw : inWindow ((mainOf cfg p store fuel sched).take k) with
+    | false => rfl
+    | true => exact absurd htr (stateAt_not_Tr_inside hb store fuel sched k hw)
+  · exact tr_outside_window cfg p store fuel sched k
+
+/-- `Tr` holds at every loop head: the state at the head of iteration `i` (= the end of the main
+    stream of the schedule cut after `i` rounds, which is an interrupt instant `k` of the run) -/
+theorem tr_at_loop_heads (i : Nat) :
+    Tr cfg (runPrims cfg p (mainOf cfg p store fuel (sched.take i)) (initIS cfg p store fuel)) ∧
+    ∃ k, (mainOf cfg p store fuel sched).take k = mainOf cfg p store fuel (sched.take i) :=
+  ⟨mainEnd_Tr store fuel (sched.take i), mainStream_take (reqTids p) sched _ i⟩
+
+/-- a loop head is outside the window -/
+theorem loop_head_outside_window (i : Nat) (hb : cfg.backend ≠ .serial) :
+    inWindow (mainOf cfg p store fuel (sched.take i)) = false :=
+  mainEnd_outside store fuel (sched.take i) hb
+
+/-- `drain_waits_for_running` with the window as the only hypothesis: from every interrupt instant
+    outside the window, when the handler leaves by `KeyboardInterrupt` no worker is alive, and
+    everyone who was alive at the interrupt ran to completion or died by itself. -/
+theorem drain_waits_for_running_outside_window (k : Nat) (hk : k < (mainOf cfg p store fuel sched).length)
+    (hw : inWindow ((mainOf cfg p store fuel sched).take k) = false)
+    (hout : (interruptedRun cfg p store fuel sched k ds none).outcome = .interrupted) :
+    (interruptedRun cfg p store fuel sched k ds none).final.alive = [] ∧
+    ∀ t ∈ (stateAt cfg p store fuel sched k).alive,
+      t ∈ (interruptedRun cfg p store fuel sched k ds none).final.terminated ∨ p.dies t = true ∨
+      t ∈ ranOf (interruptedRun cfg p store fuel sched k ds none).final.rs.trace :=
+  drain_waits_for_running_partial cfg p store fuel sched ds k hk
+    (tr_outside_window cfg p store fuel sched k hw) hout
+
+/-- `double_interrupt_stops` with the window (of the FIRST interrupt) as the only hypothesis -/
+theorem double_interrupt_stops_outside_window (k m : Nat) (hk : k < (mainOf cfg p store fuel sched).length)
+    (hm : m < (handlerPrims cfg p (reqTids p) ds (stateAt cfg p store fuel sched k)).length)
+    (hw : inWindow ((mainOf cfg p store fuel sched).take k) = false)
+    (hout : (interruptedRun cfg p store fuel sched k ds (some m)).outcome = .interrupted) :
+    (interruptedRun cfg p store fuel sched k ds (some m)).final.alive = [] ∧
+    ∀ t ∈ (stateAt cfg p store fuel sched k).alive,
+      t ∈ (interruptedRun cfg p store fuel sched k ds (some m)).final.terminated ∨ p.dies t = true ∨
+      t ∈ ranOf (interruptedRun cfg p store fuel sched k ds (some m)).final.rs.trace :=
+  double_interrupt_stops_partial cfg p store fuel sched ds k m hk hm
+    (tr_outside_window cfg p store fuel sched k hw) hout
+
+/-- outside the window the running map is no longer than `future_to_task`: the drain needs at most
+    `len(future_to_task at the interrupt) + 1` fair rounds -/
+theorem drain_terminates_tracked (k : Nat) (hk : k < (mainOf cfg p store fuel sched).length)
+    (hw : inWindow ((mainOf cfg p store fuel sched).take k) = false)
+    (hfair : FairDrain ds)
+    (hlen : (stateAt cfg p store fuel sched k).rs.futs.length + 1 ≤ ds.length) :
+    (interruptedRun cfg p store fuel sched k ds none).outcome ≠ .waiting := by
+  have htr := tr_outside_window cfg p store fuel sched k hw
+  apply drain_terminates cfg p store fuel sched ds k hk hfair
+  have h1 : ((stateAt cfg p store fuel sched k).rs.running.map Job.tid).length ≤
+      (stateAt cfg p store fuel sched k).rs.futs.length :=
+    nodup_subset_length_le _ _ htr.runNd (fun a ha => by
+      obtain ⟨j, hj, rfl⟩ := List.mem_map.mp ha
+      exact htr.runFut j hj)
+  rw [List.length_map] at h1
+  omega
+
+/-! ### non-vacuity, necessity of the hypotheses, and the window's witnesses -/
+
+/-- three independent tasks on two workers: the third one is started by `_start_processes` called
+    from `wait` (main stream: … 14 `regFuture 2`, 15 `consumeResults`, 16 `procStart 2`,
+    17 `regRunning 2`, 18 `unregPending 2`, 19 `popFuture 0` …) -/
+def c14W : Problem where
+  tidOf := fun i => i
+  children := fun _ => []
+  requested := [0, 1, 2]
+  ty := fun _ => 0
+  maxPar := fun _ => none
+  cacheable := fun _ => true
+  fails := fun _ => false
+  dies := fun _ => false
+  behave := fun t _ => some (1000 * t)
+
+def c14Fair : List Choice := [c14First, c14First, c14First]
+def c14WSched : List Choice := [c14First, c14First, c14First, c14First]
+
+theorem c14Fair_fair : FairDrain c14Fair := by unfold FairDrain c14Fair; decide
+
+/-- `drain_terminates` / `single_interrupt_raises_interrupt_fair` are not vacuous: both workers
+    running at `k = 12`, three fair rounds in which only the first worker reports -/
+example : FairDrain c14Fair ∧
+    (stateAt c14Cfg c14P [] 4 c14Sched 12).rs.running.length + 1 ≤ c14Fair.length ∧
+    (interruptedRun c14Cfg c14P [] 4 c14Sched 12 c14Fair none).outcome = .interrupted :=
+  ⟨c14Fair_fair, by decide, by decide⟩
+
+/-- the length bound is needed: one fair round is not enough for two running workers … -/
+example : FairDrain [c14First] ∧
+    (interruptedRun c14Cfg c14P [] 4 c14Sched 12 [c14First] none).outcome = .waiting :=
+  ⟨by unfold FairDrain; decide, by decide⟩
+
+/-- … and so is fairness: three rounds in which nobody reports -/
+example : (interruptedRun c14Cfg c14P [] 4 c14Sched 12 [noWait, noWait, noWait] none).outcome = .waiting := by
+  decide
+
+/-- the drain also ends from INSIDE the window (k = 9, 10, 11), as `drain_terminates` says -/
+example : (interruptedRun c14Cfg c14P [] 4 c14Sched 9 c14Fair none).outcome = .interrupted ∧
+    (interruptedRun c14Cfg c14P [] 4 c14Sched 10 c14Fair none).outcome = .interrupted ∧
+    (interruptedRun c14Cfg c14P [] 4 c14Sched 11 c14Fair none).outcome = .interrupted := by decide
+
+/-- the window predicate on `c14P`'s main stream: outside at the loop head (0), after `enqueue 1`
+    (8: nothing started yet) and after `regFuture 1` (12); inside after `procStart 1` (9),
+    `regRunning 1` (10), `unregPending 1` (11: tracked as running, future not yet registered) -/
+example : ((List.range 14).map (fun k => inWindow ((mainOf c14Cfg c14P [] 4 c14Sched).take k))) =
+    [false, false, false, true, true, true, false, false, false, true, true, true, false, false] := by decide
+
+/-- the `_outside_window` theorems are not vacuous (k = 12: outside, both workers alive) -/
+example : inWindow ((mainOf c14Cfg c14P [] 4 c14Sched).take 12) = false ∧
+    (stateAt c14Cfg c14P [] 4 c14Sched 12).alive = [0, 1] ∧
+    (interruptedRun c14Cfg c14P [] 4 c14Sched 12 c14Fair none).outcome = .interrupted ∧
+    (interruptedRun c14Cfg c14P [] 4 c14Sched 12 c14Fair none).final.alive = [] := by decide
+
+/-- FINDING F14a is exactly the complement: inside each part of the window the conclusion of
+    `drain_waits_for_running` fails for some problem (fair drain, outcome `KeyboardInterrupt`, a worker
+    left alive).
+    (a) submit path, after `process.start()`, before the running-map registration (k = 9);
+    (b) submit path, registered as running and no longer pending, `future_to_task` not yet set (k = 11);
+    (c) NEW — `_start_processes` called from `ProcessExecutor.wait`, after `process.start()` and before
+        the registration (k = 17 on `c14W`): the future is still pending, `cancel()` cancels it, the
+        drain pops it as cancelled, the started worker is in no map;
+    (d) NEW — same call, registered as running but still pending too (k = 18): `cancel()` cancels the
+        future of a RUNNING worker; the drain pops it as cancelled and does not wait for the worker. -/
+theorem window_is_F14a :
+    (inWindow ((mainOf c14Cfg c14P [] 4 c14Sched).take 9) = true ∧
+      (interruptedRun c14Cfg c14P [] 4 c14Sched 9 c14Fair none).outcome = .interrupted ∧
+      (interruptedRun c14Cfg c14P [] 4 c14Sched 9 c14Fair none).final.alive = [1]) ∧
+    (inWindow ((mainOf c14Cfg c14P [] 4 c14Sched).take 11) = true ∧
+      (interruptedRun c14Cfg c14P [] 4 c14Sched 11 c14Fair none).outcome = .interrupted ∧
+      (interruptedRun c14Cfg c14P [] 4 c14Sched 11 c14Fair none).final.alive = [1]) ∧
+    (inWindow ((mainOf c14Cfg c14W [] 4 c14WSched).take 17) = true ∧
+      (interruptedRun c14Cfg c14W [] 4 c14WSched 17 c14Fair none).outcome = .interrupted ∧
+      (interruptedRun c14Cfg c14W [] 4 c14WSched 17 c14Fair none).final.alive = [2]) ∧
+    (inWindow ((mainOf c14Cfg c14W [] 4 c14WSched).take 18) = true ∧
+      (interruptedRun c14Cfg c14W [] 4 c14WSched 18 c14Fair none).outcome = .interrupted ∧
+      (interruptedRun c14Cfg c14W [] 4 c14WSched 18 c14Fair none).final.alive = [2]) := by decide
+
+/-- FINDING (extension of F14a to the wait path), double interrupt: first interrupt after
+    `process.start()` inside `wait`'s `_start_processes` (k = 17), second one at once: `stop()`
+    terminates the two registered workers, the just-started third one stays alive -/
+theorem finding_untracked_worker_wait_path_double :
+    (interruptedRun c14Cfg c14W [] 4 c14WSched 17 [c14First] (some 0)).outcome = .interrupted ∧
+    (interruptedRun c14Cfg c14W [] 4 c14WSched 17 [c14First] (some 0)).final.alive = [2] ∧
+    (interruptedRun c14Cfg c14W [] 4 c14WSched 17 [c14First] (some 0)).final.terminated = [1] := by
+  decide
+
+/-- the wait path's window closes with `unregPending` (k = 19 on `c14W`: outside, nobody left) -/
+example : inWindow ((mainOf c14Cfg c14W [] 4 c14WSched).take 19) = false ∧
+    inWindow ((mainOf c14Cfg c14W [] 4 c14WSched).take 16) = false ∧
+    (interruptedRun c14Cfg c14W [] 4 c14WSched 19 c14Fair none).outcome = .interrupted ∧
+    (interruptedRun c14Cfg c14W [] 4 c14WSched 19 c14Fair none).final.alive = [] := by decide
+
+/-- `tr_at_loop_heads` / `loop_head_outside_window`: the head of the second iteration of `c14P`'s run is
+    interrupt instant 25 (tasks 0 and 1 done, task 2 about to be submitted) -/
+example : (mainOf c14Cfg c14P [] 4 (c14Sched.take 1)).length = 25 ∧
+    inWindow ((mainOf c14Cfg c14P [] 4 c14Sched).take 25) = false ∧
+    (stateAt c14Cfg c14P [] 4 c14Sched 25).rs.futs = [] ∧
+    (stateAt c14Cfg c14P [] 4 c14Sched 25).rs.ts.pending = [2] := by decide
+
+/-- `tracked_future_covered`, `tr_iff_outside_window`, `drain_terminates_tracked` and
+    `double_interrupt_stops_outside_window` have satisfiable hypotheses (k = 12: process runner, status
+    running, outside the window, two tracked futures, three fair rounds; second interrupt at m = 0) -/
+example : c14Cfg.backend ≠ .serial ∧ (stateAt c14Cfg c14P [] 4 c14Sched 12).rs.status = .running ∧
+    (stateAt c14Cfg c14P [] 4 c14Sched 12).rs.futs = [0, 1] ∧
+    (stateAt c14Cfg c14P [] 4 c14Sched 12).rs.futs.length + 1 ≤ c14Fair.length ∧
+    0 < (handlerPrims c14Cfg c14P (reqTids c14P) c14Fair (stateAt c14Cfg c14P [] 4 c14Sched 12)).length ∧
+    (interruptedRun c14Cfg c14P [] 4 c14Sched 12 c14Fair (some 0)).outcome = .interrupted ∧
+    (interruptedRun c14Cfg c14P [] 4 c14Sched 12 c14Fair (some 0)).final.alive = [] := by decide
 
 end Lt
